@@ -81,7 +81,7 @@ if os.environ.get("VERIF_NO_W8"):       # measuring only: the pool as it was bef
 def gen_data(rng, maxlen=12):
     n = rng.below(maxlen + 1)
     if rng.chance(1, 14):
-        n = rng.pick([16, 17, 32, 64, 255, 256, 300])      # long heap data (length fields of more than one byte)
+        n = rng.pick([16, 17, 32, 33, 64, 250, 251, 255, 256, 300])      # long heap data (length fields of more than one byte: 251 is the first)
     bs = bytes(rng.below(256) for _ in range(n))
     kind = rng.below(4)
     if n <= 8 and kind != 0:
@@ -390,8 +390,22 @@ def adversary_history(rng, hid):
 
 
 def boundary_history(rng, hid):
-    kind = rng.pick(["labels", "members", "groups", "lastid"])
+    kind = rng.pick(["labels", "members", "groups", "lastid"] * 3 + ["crowd"])
     n = rng.pick([1, 2, 3, 4, 8, 16])
+    if kind == "crowd" and os.environ.get("VERIF_NO_W9"):
+        kind = "groups"
+    if kind == "crowd":
+        # more than 255 present vertices, ids and an allocator position across 255/256 (a count or an id kept in a byte)
+        cap = rng.pick([300, 600])
+        k = rng.pick([256, 257, 290])
+        pre = ["ADD g %d" % v for v in range(k)]
+        for j in range(rng.below(4)):
+            a = rng.pick([3, 100, 254, 255])
+            pre += ["BIND g %d %d %s" % (a + 2 * j, 255 + j, lab_alpha(j % n))]
+        if rng.chance(1, 2):
+            pre += ["NEXT g", "NEXT g"]
+        w = {"add": 8, "readd": 4, "bind": 30, "put": 18, "data": 22, "next": 6, "nextadd": 6, "kid": 2, "kids": 2, "keys": 3}
+        return core_history(rng, hid, n=n, cap=cap, length=rng.pick([8, 16]), weights=w, idpool=8, base=252, prefix=pre)
     if kind == "labels":
         cap = rng.pick([4, 8, 16])
         pre = fill_prefix(rng, "labels", n, cap)[1:]
@@ -472,14 +486,18 @@ def _cycle(rng, vs, n):
     return build, ["DATA g %d" % v for v in reads], [v for v in vs if v not in joined]
 
 
-def soak_history(rng, hid, cycles, bystanders=None):
+def soak_history(rng, hid, cycles, bystanders=None, witness=False):
     """hundreds of create / fill / read / collect cycles over a rotating id
     pool with 0..13 other groups kept alive meanwhile; one or two cycle groups alive at a time"""
     k = rng.below(14) if bystanders is None else bystanders
     n = rng.pick([1, 2, 4, 16])
+    if witness:
+        # bystander vertex 0 gets one more edge, into the first cycle group, and is asked about it ever after: the edge
+        # dangles once that group is collected and must stay what it is, however many collections follow
+        k, n = max(k, 1), max(n, 2)
     pool = rng.pick([4, 6, 8, 10])
     cap = 2 * k + pool + rng.below(3)
-    two = k <= 12 and pool >= 6 and rng.chance(1, 2)       # two cycle groups alive at a time
+    two = (not witness) and k <= 12 and pool >= 6 and rng.chance(1, 2)       # two cycle groups alive at a time
     ops = ["NEW g %d" % cap]
     for b in range(k):
         ops += ["ADD g %d" % (2 * b), "ADD g %d" % (2 * b + 1),
@@ -512,11 +530,19 @@ def soak_history(rng, hid, cycles, bystanders=None):
         else:
             size = min(len(free), rng.pick([2, 2, 3, 4]))
             b1, r1, l1 = _cycle(rng, free[:size], n)
+            if witness and c == 0:
+                grouped = [v for v in free[:size] if v not in l1]
+                if grouped:
+                    b1 = b1 + ["BIND g 0 %d %s" % (grouped[0], lab_alpha(1))]
             ops += b1 + r1
             loose.update(l1)
             c += 1
+        if witness and rng.chance(1, 8):
+            ops += ["KID g 0 %s" % lab_alpha(1), "KIDS g 0", "KIDS g 1"]
         if rng.chance(1, 6):
             ops.append("KEYS g")
+    if witness:
+        ops += ["KID g 0 %s" % lab_alpha(1), "KIDS g 0"]
     ops.append("KEYS g")
     return History(hid, n, ops, {"cycles": c, "bystanders": k, "cap": cap, "n": n})
 
